@@ -12,6 +12,7 @@ import Splipy.Lemmas.C15CoonsEdges
 import Splipy.Lemmas.C15SurfaceEdges
 import Splipy.Lemmas.C15Volume
 import Splipy.Lemmas.C15EdgeCurves4
+import Splipy.Lemmas.C15EdgePackage
 import Splipy.Generated.C15
 import Mathlib.Tactic.NormNum
 import Mathlib.Tactic.IntervalCases
@@ -825,6 +826,351 @@ theorem C15_edge_curves_4_partial (tol : K) (htol : 0 < tol) (rtol atol : K) (hr
   rw [edgeCurves_directed tol rtol atol hr ha bottom right top left hcompat e12 e23 e34 e41]
   exact h1
 
+open C06 C12 Obj Basis in
+/-- **`coons_patch` with opposite pairs on DIFFERENT bases: boundary extraction and evaluation of the result
+    agree with the four inputs — at the level of `Obj.evaluate`, `Obj.sectionSel` and `Obj.constParCurve`.**
+    Family (`_partial`): all four curves live on `[0,1]`, clamped, non-periodic, orders `≥ 2`.  Within each
+    opposite pair the two curves are written in *common-entry form*, the form `C12_open_curves` needs:
+    `bottom` on `unitBasis pB U₁ MB`, `T = top.reverse()` on `unitBasis pT U₁ MT` over one list `U₁` of interior
+    values (multiplicity lists with entries `≤ order - 1`, `0` = value absent), likewise `Lf = left.reverse()`,
+    `right` over `U₂`; the union bases `B₁ = unitBasis (max pB pT) U₁ (unionMult …)`, `B₂` satisfy `UnitKnots`
+    (every listed value is a knot of at least one curve of the pair, continuity, distinct knots more than
+    `2(p-1)·tol` apart, `p` the larger order).  Same rationality `rat`, same number `nc` of homogeneous
+    components.  Corner rows (homogeneous, incl. weights) agree exactly.
+    Conclusion: `Obj.coonsPatch tol bottom right top left = .ok s`, `s` on `B₁ × B₂`, and for each of the four
+    edges `C15.EdgeAgrees` (fields `sec`, `cpc`, `ev`):
+    * `s.sectionSel (None,0) / (None,-1) / (0,None) / (-1,None)` returns a `Curve` on `B₁` / `B₂` that is the same
+      map as `bottom` / `T` / `Lf` / `right` **and** `Obj.evaluate` of that curve returns the same array as
+      `Obj.evaluate` of the input on every non-empty parameter list admissible for both bases;
+    * `s.constParCurve tol 0 / 1` in direction `1` (`v`) resp. `0` (`u`) returns a curve with the same two
+      properties;
+    * `s.evaluate tol [us, [0]]`, `[us, [1]]`, `[[0], vs]`, `[[1], vs]` return the same numbers (`data`) as
+      `bottom / T / Lf / right .evaluate tol [us]` (the shapes differ by the singleton axis).
+    `Obj.evaluate` is the model of `SplineObject.evaluate` (snap, basis matrices, contraction, rational
+    division; C02), so for rational inputs these are statements about the projected points.
+    "Admissible" (`Basis.Admissible`): in the domain and a knot or at least `tol` away from every knot.
+    Not covered: inputs not on `[0,1]` (then `make_splines_identical` re-parametrises: `C12` `Rescaled`),
+    periodic inputs, corners that only agree up to `allclose`. -/
+theorem C15_coons_patch_mixed_boundary_partial (tol : K) (htol : 0 < tol) {pB pT pL pR : ℕ} {U1 U2 : List K}
+    {MB MT ML MR : List ℕ} (hpo : 2 ≤ pB ∧ 2 ≤ pT ∧ 2 ≤ pL ∧ 2 ≤ pR)
+    (hlen : MB.length = U1.length ∧ MT.length = U1.length ∧ ML.length = U2.length ∧ MR.length = U2.length)
+    (hmu : (∀ x ∈ MB, x ≤ pB - 1) ∧ (∀ x ∈ MT, x ≤ pT - 1) ∧ (∀ x ∈ ML, x ≤ pL - 1) ∧ (∀ x ∈ MR, x ≤ pR - 1))
+    (k1 : UnitKnots tol (max pB pT) U1 (unionMult pB pT MB MT))
+    (k2 : UnitKnots tol (max pL pR) U2 (unionMult pL pR ML MR)) (rat : Bool) (nc : ℕ)
+    (bottom right top left : Obj K)
+    (hB : UnitCurve bottom pB U1 MB rat nc) (hT : UnitCurve (top.reverse 0) pT U1 MT rat nc)
+    (hL : UnitCurve (left.reverse 0) pL U2 ML rat nc) (hR : UnitCurve right pR U2 MR rat nc)
+    (oB : bottom.WF) (oT : (top.reverse 0).WF) (oL : (left.reverse 0).WF) (oR : right.WF)
+    (c00 : Obj.cpRow (left.reverse 0) 0 = Obj.cpRow bottom 0)
+    (c10 : Obj.cpRow right 0 = Obj.cpRow bottom (-1))
+    (c01 : Obj.cpRow (left.reverse 0) (-1) = Obj.cpRow (top.reverse 0) 0)
+    (c11 : Obj.cpRow right (-1) = Obj.cpRow (top.reverse 0) (-1)) (unwrap : Bool) :
+    ∃ s : Obj K,
+      Obj.coonsPatch tol bottom right top left = .ok s
+      ∧ UnitSurf s (max pB pT) (max pL pR) U1 U2 (unionMult pB pT MB MT) (unionMult pL pR ML MR) rat nc
+      ∧ EdgeAgrees tol s bottom (unitBasis (max pB pT) U1 (unionMult pB pT MB MT)) (unitBasis pB U1 MB)
+          [none, some 0] (.inl 1) 0 (fun us => [us, [0]]) unwrap
+      ∧ EdgeAgrees tol s (top.reverse 0) (unitBasis (max pB pT) U1 (unionMult pB pT MB MT)) (unitBasis pT U1 MT)
+          [none, some (-1)] (.inl 1) 1 (fun us => [us, [1]]) unwrap
+      ∧ EdgeAgrees tol s (left.reverse 0) (unitBasis (max pL pR) U2 (unionMult pL pR ML MR)) (unitBasis pL U2 ML)
+          [some 0, none] (.inl 0) 0 (fun vs => [[0], vs]) unwrap
+      ∧ EdgeAgrees tol s right (unitBasis (max pL pR) U2 (unionMult pL pR ML MR)) (unitBasis pR U2 MR)
+          [some (-1), none] (.inl 0) 1 (fun vs => [[1], vs]) unwrap := by
+  obtain ⟨s, hcall, SS, hed⟩ := coonsPatch_edges_mixed tol htol hpo hlen hmu rfl rfl rfl rfl k1 k2 rat nc
+    bottom right top left hB hT hL hR oB oT oL oR
+  have eB := SS.edge_v_agrees htol k1.hp k1.hlen k2 bottom hpo.1 hlen.1 hB oB false
+    (by intro comp hc sd t; simpa using (hed comp hc sd t).2.2.1 c00 c10) unwrap
+  have eT := SS.edge_v_agrees htol k1.hp k1.hlen k2 (top.reverse 0) hpo.2.1 hlen.2.1 hT oT true
+    (by intro comp hc sd t; simpa using (hed comp hc sd t).2.2.2 c01 c11) unwrap
+  have eL := SS.edge_u_agrees htol k1 k2.hp k2.hlen (left.reverse 0) hpo.2.2.1 hlen.2.2.1 hL oL false
+    (by intro comp hc sd t; simpa using (hed comp hc sd t).1) unwrap
+  have eR := SS.edge_u_agrees htol k1 k2.hp k2.hlen right hpo.2.2.2 hlen.2.2.2 hR oR true
+    (by intro comp hc sd t; simpa using (hed comp hc sd t).2.1) unwrap
+  simp only [Bool.false_eq_true, if_false, if_true] at eB eT eL eR
+  exact ⟨s, hcall, SS, eB, eT, eL, eR⟩
+
+open C06 C12 Obj Basis in
+/-- `C15_coons_patch_mixed_boundary_partial` when the two curves of each opposite pair share their basis
+    (the family of `C15_coons_patch_partial`). -/
+theorem C15_coons_patch_boundary_partial (tol : K) (htol : 0 < tol) {p1 p2 : ℕ} {U1 U2 : List K} {M1 M2 : List ℕ}
+    (k1 : UnitKnots tol p1 U1 M1) (k2 : UnitKnots tol p2 U2 M2) (rat : Bool) (nc : ℕ)
+    (bottom right top left : Obj K)
+    (hB : UnitCurve bottom p1 U1 M1 rat nc) (hT : UnitCurve (top.reverse 0) p1 U1 M1 rat nc)
+    (hL : UnitCurve (left.reverse 0) p2 U2 M2 rat nc) (hR : UnitCurve right p2 U2 M2 rat nc)
+    (oB : bottom.WF) (oT : (top.reverse 0).WF) (oL : (left.reverse 0).WF) (oR : right.WF)
+    (c00 : Obj.cpRow (left.reverse 0) 0 = Obj.cpRow bottom 0)
+    (c10 : Obj.cpRow right 0 = Obj.cpRow bottom (-1))
+    (c01 : Obj.cpRow (left.reverse 0) (-1) = Obj.cpRow (top.reverse 0) 0)
+    (c11 : Obj.cpRow right (-1) = Obj.cpRow (top.reverse 0) (-1)) (unwrap : Bool) :
+    ∃ s : Obj K,
+      Obj.coonsPatch tol bottom right top left = .ok s
+      ∧ EdgeAgrees tol s bottom (unitBasis p1 U1 M1) (unitBasis p1 U1 M1) [none, some 0] (.inl 1) 0
+          (fun us => [us, [0]]) unwrap
+      ∧ EdgeAgrees tol s (top.reverse 0) (unitBasis p1 U1 M1) (unitBasis p1 U1 M1) [none, some (-1)] (.inl 1) 1
+          (fun us => [us, [1]]) unwrap
+      ∧ EdgeAgrees tol s (left.reverse 0) (unitBasis p2 U2 M2) (unitBasis p2 U2 M2) [some 0, none] (.inl 0) 0
+          (fun vs => [[0], vs]) unwrap
+      ∧ EdgeAgrees tol s right (unitBasis p2 U2 M2) (unitBasis p2 U2 M2) [some (-1), none] (.inl 0) 1
+          (fun vs => [[1], vs]) unwrap := by
+  have e1 : max p1 p1 = p1 := max_self p1
+  have e2 : max p2 p2 = p2 := max_self p2
+  have u1 := unionMult_self p1 M1
+  have u2 := unionMult_self p2 M2
+  obtain ⟨s, h1, _, h3⟩ := C15_coons_patch_mixed_boundary_partial tol htol (pB := p1) (pT := p1) (pL := p2) (pR := p2)
+    (MB := M1) (MT := M1) (ML := M2) (MR := M2) ⟨k1.hp, k1.hp, k2.hp, k2.hp⟩ ⟨k1.hlen, k1.hlen, k2.hlen, k2.hlen⟩
+    ⟨fun x hx => (k1.hm x hx).2, fun x hx => (k1.hm x hx).2, fun x hx => (k2.hm x hx).2, fun x hx => (k2.hm x hx).2⟩
+    (by rw [e1, u1]; exact k1) (by rw [e2, u2]; exact k2) rat nc bottom right top left hB hT hL hR oB oT oL oR
+    c00 c10 c01 c11 unwrap
+  rw [e1, e2, u1, u2] at h3
+  exact ⟨s, h1, h3⟩
+
+open C06 C12 Obj Basis in
+/-- **`edge_curves(bottom, right, top, left)` on a directed loop, at the level of `Obj.evaluate` /
+    `section` / `const_par_curve`**: hypotheses of `C15_edge_curves_4_partial`; the result of the model's
+    `edge_curves` has the four inputs as its four edges in all three senses of `C15.EdgeAgrees`
+    (see `C15_coons_patch_boundary_partial`). -/
+theorem C15_edge_curves_4_boundary_partial (tol : K) (htol : 0 < tol) (rtol atol : K) (hr : 0 ≤ rtol) (ha : 0 ≤ atol)
+    {p1 p2 : ℕ} {U1 U2 : List K} {M1 M2 : List ℕ}
+    (k1 : UnitKnots tol p1 U1 M1) (k2 : UnitKnots tol p2 U2 M2) (rat : Bool) (nc : ℕ)
+    (bottom right top left : Obj K)
+    (hB : UnitCurve bottom p1 U1 M1 rat nc) (hT : UnitCurve (top.reverse 0) p1 U1 M1 rat nc)
+    (hL : UnitCurve (left.reverse 0) p2 U2 M2 rat nc) (hR : UnitCurve right p2 U2 M2 rat nc)
+    (oB : bottom.WF) (oT : (top.reverse 0).WF) (oL : (left.reverse 0).WF) (oR : right.WF)
+    (nT nL : ℕ) (cT : CurveLike top nT nc) (cL : CurveLike left nL nc)
+    (e12 : Obj.cpRow bottom (-1) = Obj.cpRow right 0) (e23 : Obj.cpRow right (-1) = Obj.cpRow top 0)
+    (e34 : Obj.cpRow top (-1) = Obj.cpRow left 0) (e41 : Obj.cpRow left (-1) = Obj.cpRow bottom 0)
+    (unwrap : Bool) :
+    ∃ s : Obj K,
+      Obj.edgeCurves tol [bottom, right, top, left] rtol atol = .ok s
+      ∧ EdgeAgrees tol s bottom (unitBasis p1 U1 M1) (unitBasis p1 U1 M1) [none, some 0] (.inl 1) 0
+          (fun us => [us, [0]]) unwrap
+      ∧ EdgeAgrees tol s (top.reverse 0) (unitBasis p1 U1 M1) (unitBasis p1 U1 M1) [none, some (-1)] (.inl 1) 1
+          (fun us => [us, [1]]) unwrap
+      ∧ EdgeAgrees tol s (left.reverse 0) (unitBasis p2 U2 M2) (unitBasis p2 U2 M2) [some 0, none] (.inl 0) 0
+          (fun vs => [[0], vs]) unwrap
+      ∧ EdgeAgrees tol s right (unitBasis p2 U2 M2) (unitBasis p2 U2 M2) [some (-1), none] (.inl 0) 1
+          (fun vs => [[1], vs]) unwrap := by
+  have hTr : top.rational = rat := hT.rational
+  have hLr : left.rational = rat := hL.rational
+  have hTn : top.ncomp = nc := by unfold Obj.ncomp; rw [cT.shape]; rfl
+  have hLn : left.ncomp = nc := by unfold Obj.ncomp; rw [cL.shape]; rfl
+  have hall : ∀ a ∈ [bottom, right, top, left], a.rational = rat ∧ a.ncomp = nc := by
+    intro a ha
+    simp only [List.mem_cons, List.not_mem_nil, or_false] at ha
+    rcases ha with rfl | rfl | rfl | rfl
+    · exact ⟨hB.rational, hB.ncomp⟩
+    · exact ⟨hR.rational, hR.ncomp⟩
+    · exact ⟨hTr, hTn⟩
+    · exact ⟨hLr, hLn⟩
+  have hcompat : ∀ a ∈ [bottom, right, top, left], ∀ b ∈ [bottom, right, top, left],
+      a.rational = b.rational ∧ a.dimension = b.dimension := by
+    intro a ha b hb
+    obtain ⟨a1, a2⟩ := hall a ha
+    obtain ⟨b1, b2⟩ := hall b hb
+    exact ⟨a1.trans b1.symm, dimension_eq_of (a1.trans b1.symm) (a2.trans b2.symm)⟩
+  obtain ⟨_, rT0, rT1⟩ := reverse_curveLike top nT nc cT
+  obtain ⟨_, rL0, rL1⟩ := reverse_curveLike left nL nc cL
+  obtain ⟨s, h1, h2⟩ := C15_coons_patch_boundary_partial tol htol k1 k2 rat nc bottom right top left hB hT hL hR
+    oB oT oL oR (rL0.trans e41) e12.symm (rL1.trans (e34.symm.trans rT0.symm)) (e23.trans rT1.symm) unwrap
+  refine ⟨s, ?_, h2⟩
+  rw [edgeCurves_directed tol rtol atol hr ha bottom right top left hcompat e12 e23 e34 e41]
+  exact h1
+
+open C06 C12 Obj Basis in
+/-- **`edge_curves(bottom, right, top, left)` on a directed loop, opposite pairs on different bases**:
+    family of `C15_coons_patch_mixed_boundary_partial`; the curves are given in loop direction with equal
+    consecutive end control points, `rtol, atol ≥ 0`, `top`, `left` curve-like.  The model's `edge_curves`
+    returns `s` whose four edges are the four inputs in all three senses of `C15.EdgeAgrees`. -/
+theorem C15_edge_curves_4_mixed_boundary_partial (tol : K) (htol : 0 < tol) (rtol atol : K) (hr : 0 ≤ rtol)
+    (ha : 0 ≤ atol) {pB pT pL pR : ℕ} {U1 U2 : List K}
+    {MB MT ML MR : List ℕ} (hpo : 2 ≤ pB ∧ 2 ≤ pT ∧ 2 ≤ pL ∧ 2 ≤ pR)
+    (hlen : MB.length = U1.length ∧ MT.length = U1.length ∧ ML.length = U2.length ∧ MR.length = U2.length)
+    (hmu : (∀ x ∈ MB, x ≤ pB - 1) ∧ (∀ x ∈ MT, x ≤ pT - 1) ∧ (∀ x ∈ ML, x ≤ pL - 1) ∧ (∀ x ∈ MR, x ≤ pR - 1))
+    (k1 : UnitKnots tol (max pB pT) U1 (unionMult pB pT MB MT))
+    (k2 : UnitKnots tol (max pL pR) U2 (unionMult pL pR ML MR)) (rat : Bool) (nc : ℕ)
+    (bottom right top left : Obj K)
+    (hB : UnitCurve bottom pB U1 MB rat nc) (hT : UnitCurve (top.reverse 0) pT U1 MT rat nc)
+    (hL : UnitCurve (left.reverse 0) pL U2 ML rat nc) (hR : UnitCurve right pR U2 MR rat nc)
+    (oB : bottom.WF) (oT : (top.reverse 0).WF) (oL : (left.reverse 0).WF) (oR : right.WF)
+    (nT nL : ℕ) (cT : CurveLike top nT nc) (cL : CurveLike left nL nc)
+    (e12 : Obj.cpRow bottom (-1) = Obj.cpRow right 0) (e23 : Obj.cpRow right (-1) = Obj.cpRow top 0)
+    (e34 : Obj.cpRow top (-1) = Obj.cpRow left 0) (e41 : Obj.cpRow left (-1) = Obj.cpRow bottom 0)
+    (unwrap : Bool) :
+    ∃ s : Obj K,
+      Obj.edgeCurves tol [bottom, right, top, left] rtol atol = .ok s
+      ∧ UnitSurf s (max pB pT) (max pL pR) U1 U2 (unionMult pB pT MB MT) (unionMult pL pR ML MR) rat nc
+      ∧ EdgeAgrees tol s bottom (unitBasis (max pB pT) U1 (unionMult pB pT MB MT)) (unitBasis pB U1 MB)
+          [none, some 0] (.inl 1) 0 (fun us => [us, [0]]) unwrap
+      ∧ EdgeAgrees tol s (top.reverse 0) (unitBasis (max pB pT) U1 (unionMult pB pT MB MT)) (unitBasis pT U1 MT)
+          [none, some (-1)] (.inl 1) 1 (fun us => [us, [1]]) unwrap
+      ∧ EdgeAgrees tol s (left.reverse 0) (unitBasis (max pL pR) U2 (unionMult pL pR ML MR)) (unitBasis pL U2 ML)
+          [some 0, none] (.inl 0) 0 (fun vs => [[0], vs]) unwrap
+      ∧ EdgeAgrees tol s right (unitBasis (max pL pR) U2 (unionMult pL pR ML MR)) (unitBasis pR U2 MR)
+          [some (-1), none] (.inl 0) 1 (fun vs => [[1], vs]) unwrap := by
+  have hTr : top.rational = rat := hT.rational
+  have hLr : left.rational = rat := hL.rational
+  have hTn : top.ncomp = nc := by unfold Obj.ncomp; rw [cT.shape]; rfl
+  have hLn : left.ncomp = nc := by unfold Obj.ncomp; rw [cL.shape]; rfl
+  have hall : ∀ a ∈ [bottom, right, top, left], a.rational = rat ∧ a.ncomp = nc := by
+    intro a ha
+    simp only [List.mem_cons, List.not_mem_nil, or_false] at ha
+    rcases ha with rfl | rfl | rfl | rfl
+    · exact ⟨hB.rational, hB.ncomp⟩
+    · exact ⟨hR.rational, hR.ncomp⟩
+    · exact ⟨hTr, hTn⟩
+    · exact ⟨hLr, hLn⟩
+  have hcompat : ∀ a ∈ [bottom, right, top, left], ∀ b ∈ [bottom, right, top, left],
+      a.rational = b.rational ∧ a.dimension = b.dimension := by
+    intro a ha b hb
+    obtain ⟨a1, a2⟩ := hall a ha
+    obtain ⟨b1, b2⟩ := hall b hb
+    exact ⟨a1.trans b1.symm, dimension_eq_of (a1.trans b1.symm) (a2.trans b2.symm)⟩
+  obtain ⟨_, rT0, rT1⟩ := reverse_curveLike top nT nc cT
+  obtain ⟨_, rL0, rL1⟩ := reverse_curveLike left nL nc cL
+  obtain ⟨s, h1, h2⟩ := C15_coons_patch_mixed_boundary_partial tol htol hpo hlen hmu k1 k2 rat nc bottom right top left
+    hB hT hL hR oB oT oL oR (rL0.trans e41) e12.symm (rL1.trans (e34.symm.trans rT0.symm)) (e23.trans rT1.symm) unwrap
+  refine ⟨s, ?_, h2⟩
+  rw [edgeCurves_directed tol rtol atol hr ha bottom right top left hcompat e12 e23 e34 e41]
+  exact h1
+
+open C06 C12 Obj Basis in
+/-- **`edge_curves` with four curves given in ANY order and orientation, at object level.**
+    Hypotheses: the four curves have the same rationality and dimension (so the pairwise
+    `make_splines_compatible` is the identity); they are curve-like; `lab` labels their homogeneous end
+    control points with the four corners such that two end points are `allclose` exactly when their labels
+    agree; label-wise the input is one of the `4!·2⁴` arrangements of a directed loop (hypotheses of
+    `C15_loop_reorder_objects`).  Then there are `l0 … l3` with
+    * `edge_curves(c1,c2,c3,c4) = coons_patch(l0,l1,l2,l3)` (model equality);
+    * `l0 = c1` is kept as given, and every other `l_i` **is** one of the input curves `c2,c3,c4` or its
+      `reverse()` (object level: `C15.loopOrder_mem`);
+    * label-wise `l0 … l3` is the directed closed loop found by the search on labels;
+    * **if** `l0, l1, l2, l3` (as `bottom, right, top, left`) satisfy the hypotheses of
+      `C15_coons_patch_mixed_boundary_partial` — in particular their corner control points agree *exactly*,
+      which `allclose` alone does not give: that is a hypothesis here — **then** `edge_curves` returns `s`
+      whose four edges are `l0`, `l2.reverse()`, `l3.reverse()`, `l1` in all three senses of `C15.EdgeAgrees`
+      (`section`, `const_par_curve`, `evaluate`). -/
+theorem C15_edge_curves_4_reordered_partial (tol : K) (htol : 0 < tol) (rtol atol : K) (nc : ℕ) (c1 c2 c3 c4 : Obj K)
+    (lab : Array K → Fin 4) (E : Array K → Prop)
+    (hcompat : ∀ a ∈ [c1, c2, c3, c4], ∀ b ∈ [c1, c2, c3, c4], a.rational = b.rational ∧ a.dimension = b.dimension)
+    (hcs : ∀ c ∈ [c1, c2, c3, c4], (∃ n, CurveLike c n nc) ∧ E (Obj.cpRow c 0) ∧ E (Obj.cpRow c (-1)))
+    (hlab : ∀ x y, E x → E y → Obj.allclose rtol atol x y = (lab x == lab y))
+    (a b c d : Fin 4) (hnd : [a, b, c, d].Nodup) (flips : List Bool) (hf : flips ∈ C15_allFlips)
+    (harr : [c1, c2, c3, c4].map (C15_endLabels lab) = C15_arrange [a, b, c, d] flips) :
+    ∃ l0 l1 l2 l3 : Obj K,
+      Obj.edgeCurves tol [c1, c2, c3, c4] rtol atol = Obj.coonsPatch tol l0 l1 l2 l3
+      ∧ l0 = c1
+      ∧ (∀ x ∈ [l1, l2, l3], x ∈ [c2, c3, c4] ∨ ∃ c ∈ [c2, c3, c4], x = c.reverse 0)
+      ∧ C15_search ([c1, c2, c3, c4].map (C15_endLabels lab)) = .ok ([l0, l1, l2, l3].map (C15_endLabels lab))
+      ∧ ∀ {pB pT pL pR : ℕ} {U1 U2 : List K} {MB MT ML MR : List ℕ} (rat : Bool) (unwrap : Bool),
+          (2 ≤ pB ∧ 2 ≤ pT ∧ 2 ≤ pL ∧ 2 ≤ pR) →
+          (MB.length = U1.length ∧ MT.length = U1.length ∧ ML.length = U2.length ∧ MR.length = U2.length) →
+          ((∀ x ∈ MB, x ≤ pB - 1) ∧ (∀ x ∈ MT, x ≤ pT - 1) ∧ (∀ x ∈ ML, x ≤ pL - 1) ∧ (∀ x ∈ MR, x ≤ pR - 1)) →
+          UnitKnots tol (max pB pT) U1 (unionMult pB pT MB MT) →
+          UnitKnots tol (max pL pR) U2 (unionMult pL pR ML MR) →
+          UnitCurve l0 pB U1 MB rat nc → UnitCurve (l2.reverse 0) pT U1 MT rat nc →
+          UnitCurve (l3.reverse 0) pL U2 ML rat nc → UnitCurve l1 pR U2 MR rat nc →
+          l0.WF → (l2.reverse 0).WF → (l3.reverse 0).WF → l1.WF →
+          Obj.cpRow (l3.reverse 0) 0 = Obj.cpRow l0 0 → Obj.cpRow l1 0 = Obj.cpRow l0 (-1) →
+          Obj.cpRow (l3.reverse 0) (-1) = Obj.cpRow (l2.reverse 0) 0 →
+          Obj.cpRow l1 (-1) = Obj.cpRow (l2.reverse 0) (-1) →
+          ∃ s : Obj K,
+            Obj.edgeCurves tol [c1, c2, c3, c4] rtol atol = .ok s
+            ∧ UnitSurf s (max pB pT) (max pL pR) U1 U2 (unionMult pB pT MB MT) (unionMult pL pR ML MR) rat nc
+            ∧ EdgeAgrees tol s l0 (unitBasis (max pB pT) U1 (unionMult pB pT MB MT)) (unitBasis pB U1 MB)
+                [none, some 0] (.inl 1) 0 (fun us => [us, [0]]) unwrap
+            ∧ EdgeAgrees tol s (l2.reverse 0) (unitBasis (max pB pT) U1 (unionMult pB pT MB MT)) (unitBasis pT U1 MT)
+                [none, some (-1)] (.inl 1) 1 (fun us => [us, [1]]) unwrap
+            ∧ EdgeAgrees tol s (l3.reverse 0) (unitBasis (max pL pR) U2 (unionMult pL pR ML MR)) (unitBasis pL U2 ML)
+                [some 0, none] (.inl 0) 0 (fun vs => [[0], vs]) unwrap
+            ∧ EdgeAgrees tol s l1 (unitBasis (max pL pR) U2 (unionMult pL pR ML MR)) (unitBasis pR U2 MR)
+                [some (-1), none] (.inl 0) 1 (fun vs => [[1], vs]) unwrap := by
+  obtain ⟨l, h1, h2, h3⟩ := C15_loop_reorder_objects rtol atol nc [c1, c2, c3, c4] lab E hcs hlab a b c d hnd flips
+    hf harr
+  obtain ⟨k0, k1, k2, k3, hk, _⟩ := C15_accepted_ok h3 h2
+  have hlen : l.length = 4 := by
+    have := congrArg List.length hk
+    simpa using this
+  obtain ⟨t, ht, hmem⟩ := loopOrder_mem _ _ _ _ c1 [c2, c3, c4] l h1
+  match l, hlen, t, ht with
+  | [l0, l1, l2, l3], _, t, ht =>
+    simp only [List.cons.injEq] at ht
+    obtain ⟨rfl, rfl⟩ := ht
+    have hcall : Obj.edgeCurves tol [l0, c2, c3, c4] rtol atol = Obj.coonsPatch tol l0 l1 l2 l3 := by
+      apply edgeCurves_four
+      rw [compatAll_four l0 c2 c3 c4 hcompat]
+      exact h1
+    refine ⟨l0, l1, l2, l3, hcall, rfl, hmem, h2, ?_⟩
+    intro pB pT pL pR U1 U2 MB MT ML MR rat unwrap hpo hlen hmu k1 k2 hB hT hL hR oB oT oL oR c00 c10 c01 c11
+    obtain ⟨s, g1, g2⟩ := C15_coons_patch_mixed_boundary_partial tol htol hpo hlen hmu k1 k2 rat nc l0 l1 l2 l3
+      hB hT hL hR oB oT oL oR c00 c10 c01 c11 unwrap
+    exact ⟨s, by rw [hcall]; exact g1, g2⟩
+
+open C06 C12 Obj Basis in
+/-- **`edge_curves(c1, c2)` at the level of `Obj.evaluate` / `section` / `const_par_curve`** (curves on
+    `[0,1]`).  Family (`_partial`): `c1` on `unitBasis pa U Ma`, `c2` on `unitBasis pb U Mb` — clamped on
+    `[0,1]`, orders `≥ 2`, common-entry form over one list `U` of interior values (multiplicities `≤ order - 1`,
+    `0` = absent), distinct knots more than `2(p-1)·tol` apart (`p` the larger order); same rationality and
+    number of components.  Then the model's `edge_curves(c1, c2)` returns a surface `srf` whose `v = 0` edge
+    is `c1` and whose `v = 1` edge is `c2` in all three senses of `C15.EdgeAgrees`: the curve returned by
+    `section(None, 0 / -1)`, the curve returned by `const_par_curve(0 / 1, 'v')`, and `srf.evaluate` on the
+    edge, all agree with `c1` / `c2` under `Obj.evaluate` (same returned arrays / numbers), for parameters
+    admissible for both the input's basis and the (refined, possibly degree-raised) union basis.
+    Inputs on other intervals: `C15_edge_curves_2_partial` (map level, with the re-parametrisation). -/
+theorem C15_edge_curves_2_boundary_partial (tol : K) (htol : 0 < tol) (rtol atol : K) {pa pb : ℕ} {U : List K}
+    {Ma Mb : List ℕ} (hpa : 2 ≤ pa) (hpb : 2 ≤ pb) (hla : Ma.length = U.length) (hlb : Mb.length = U.length)
+    (hma : ∀ x ∈ Ma, x ≤ pa - 1) (hmb : ∀ x ∈ Mb, x ≤ pb - 1)
+    (hgap : Splipy.Separated (2 * ((max pa pb - 1 : ℕ) : K) * tol) (clampedU 0 1 U))
+    {rat : Bool} {nc : ℕ} (c1 c2 : Obj K) (h1 : UnitCurve c1 pa U Ma rat nc) (h2 : UnitCurve c2 pb U Mb rat nc)
+    (h1o : c1.WF) (h2o : c2.WF) (unwrap : Bool) :
+    ∃ srf : Obj K,
+      Obj.edgeCurves tol [c1, c2] rtol atol = .ok srf
+      ∧ UnitSurf srf (max pa pb) 2 U [] (unionMult pa pb Ma Mb) [] rat nc
+      ∧ EdgeAgrees tol srf c1 (unitBasis (max pa pb) U (unionMult pa pb Ma Mb)) (unitBasis pa U Ma)
+          [none, some 0] (.inl 1) 0 (fun us => [us, [0]]) unwrap
+      ∧ EdgeAgrees tol srf c2 (unitBasis (max pa pb) U (unionMult pa pb Ma Mb)) (unitBasis pb U Mb)
+          [none, some (-1)] (.inl 1) 1 (fun us => [us, [1]]) unwrap := by
+  obtain ⟨r, hr, u1, b2, w2, sh, n2, m1, m2⟩ := ruled_unit2 tol htol hpa hpb hla hlb hma hmb hgap c1 c2 h1 h2 h1o h2o
+  have S : UnitSurf (ruledObj r.1 r.2) (max pa pb) 2 U [] (unionMult pa pb Ma Mb) [] rat nc := by
+    have := ruledObj_unitSurf r.1 r.2 u1 sh ([] : List K)
+    simpa using this
+  have h2tol : (0 : K) + 2 * ((1 : ℕ) : K) * tol < 1 := by
+    have := (separated_ends _ 0 1 U hgap).1
+    have hq : (1 : K) ≤ ((max pa pb - 1 : ℕ) : K) := by
+      have : 1 ≤ max pa pb - 1 := by have := le_max_left pa pb; omega
+      exact_mod_cast this
+    push_cast
+    nlinarith
+  have klin : UnitKnots tol 2 ([] : List K) [] := linear_unitKnots h2tol
+  have hpm : 2 ≤ max pa pb := le_trans hpa (le_max_left _ _)
+  have hlu : (unionMult pa pb Ma Mb).length = U.length := by
+    unfold unionMult; rw [List.length_zipWith, hla, hlb, min_self]
+  have hper : (r.1.basis 0).periodic = -1 := by rw [u1.basis]; rfl
+  have hev : ∀ comp, comp < nc → ∀ (sd : Fin 2 → Side) (u : Fin 2 → K),
+      (toTP (ruledObj r.1 r.2) 2 comp).eval sd u
+        = beta (sd 1) 0 (u 1) * (toTP c1 1 comp).eval (fun _ => sd 0) (fun _ => u 0)
+          + beta (sd 1) 1 (u 1) * (toTP c2 1 comp).eval (fun _ => sd 0) (fun _ => u 0) := by
+    intro comp hc sd u
+    rw [ruledObj_eval r.1 r.2 u1.wf w2 hper (b2.trans u1.basis.symm) sh comp (by rw [u1.ncomp]; exact hc),
+      m1.eval comp (by rw [h1.ncomp]; exact hc), m2.eval comp (by rw [h2.ncomp]; exact hc)]
+    rfl
+  obtain ⟨l0, l1, r0, r1⟩ := C15_beta_ends (K := K)
+  have e1 := S.edge_v_agrees htol hpm hlu klin c1 hpa hla h1 h1o false
+    (by intro comp hc sd t
+        simp only [Bool.false_eq_true, if_false]
+        rw [hev comp hc]
+        simp only [Matrix.cons_val_zero, Matrix.cons_val_one]
+        rw [l0, l1]; ring) unwrap
+  have e2 := S.edge_v_agrees htol hpm hlu klin c2 hpb hlb h2 h2o true
+    (by intro comp hc sd t
+        simp only [if_true]
+        rw [hev comp hc]
+        simp only [Matrix.cons_val_zero, Matrix.cons_val_one]
+        rw [r0, r1]; ring) unwrap
+  simp only [Bool.false_eq_true, if_false, if_true] at e1 e2
+  refine ⟨ruledObj r.1 r.2, ?_, S, e1, e2⟩
+  unfold Obj.edgeCurves
+  exact hr
+
 /-! ## 8f. `edge_surfaces(s1, s2)`: the ruled volume has the two inputs as its `w`-sections -/
 
 open C06 C12 Obj Basis in
@@ -864,13 +1210,13 @@ theorem C15_edge_surfaces_2_partial (tol : K) (htol : 0 < tol) (pa0 pa1 pb0 pb1 
       ∧ A.bases = #[unitBasis (max pa0 pb0) U0 (unionMult pa0 pb0 Ma0 Mb0),
                     unitBasis (max pa1 pb1) U1 (unionMult pa1 pb1 Ma1 Mb1)]
       ∧ B.bases = A.bases ∧ C06.WF A 2 ∧ C06.WF B 2
-      ∧ SameMap 2 s1 A ∧ SameMap 2 s2 B := by
+      ∧ SameMap 2 s1 A ∧ SameMap 2 s2 B ∧ A.rational = rat ∧ B.rational = rat := by
   obtain ⟨r, hr, R1, R2, sm1, sm2⟩ := identical_unitSurf tol htol pa0 pa1 pb0 pb1 U0 U1 Ma0 Ma1 Mb0 Mb1 rat nc
     s1 s2 h1 h2 hp hl hm hg0 hg1 hn
   have hsh : r.2.cps.shape = r.1.cps.shape := by rw [R1.shape, R2.shape]
   have hbb : ∀ d : Fin 2, r.2.basis d = r.1.basis d := fun d => by rw [R1.basis_fin d, R2.basis_fin d]
-  obtain ⟨A, sA, bA, _, wA, mA⟩ := ruled_section_surf r.1 r.2 R1.wf hbb hsh false unwrap
-  obtain ⟨B, sB, bB, _, wB, mB⟩ := ruled_section_surf r.1 r.2 R1.wf hbb hsh true unwrap
+  obtain ⟨A, sA, bA, rA, wA, mA⟩ := ruled_section_surf r.1 r.2 R1.wf hbb hsh false unwrap
+  obtain ⟨B, sB, bB, rB, wB, mB⟩ := ruled_section_surf r.1 r.2 R1.wf hbb hsh true unwrap
   simp only [Bool.false_eq_true, if_false, if_true] at sA sB mA mB
   have hcall : Obj.edgeSurfaces tol [s1, s2]
       = .ok { bases := r.1.bases.push linearBasis, cps := stack2 r.1.cps r.2.cps, rational := r.1.rational } := by
@@ -881,11 +1227,74 @@ theorem C15_edge_surfaces_2_partial (tol : K) (htol : 0 < tol) (pa0 pa1 pb0 pb1 
   have hbs : r.1.bases = #[r.1.basis 0, r.1.basis 1] := by
     apply Array.ext'
     rw [hbl]
-  refine ⟨_, A, B, hcall, ?_, R1.rational, sA, sB, ?_, by rw [bA, bB], wA, wB, sm1.trans mA, sm2.trans mB⟩
+  refine ⟨_, A, B, hcall, ?_, R1.rational, sA, sB, ?_, by rw [bA, bB], wA, wB, sm1.trans mA, sm2.trans mB,
+    rA.trans R1.rational, rB.trans R1.rational⟩
   · show r.1.bases.push linearBasis = _
     rw [hbs, R1.b0, R1.b1]
     rfl
   · rw [bA, R1.b0, R1.b1]
+
+open C06 C12 Obj Basis in
+/-- **`edge_surfaces(s1, s2)` at the level of `Obj.evaluate`**: hypotheses of `C15_edge_surfaces_2_partial`
+    and `1 ≤ nc`.  The two `w`-sections `A`, `B` of the model's result evaluate (`Obj.evaluate`, tensor grid)
+    to exactly the arrays of `s1`, `s2` on all non-empty parameter lists admissible for the bases of both the
+    input and the section (the section lives on the union basis, which has more knots; "admissible" = in
+    `[0,1]` and a knot or at least `tol` away from every knot). -/
+theorem C15_edge_surfaces_2_evaluate_partial (tol : K) (htol : 0 < tol) (pa0 pa1 pb0 pb1 : ℕ) (U0 U1 : List K)
+    (Ma0 Ma1 Mb0 Mb1 : List ℕ) (rat : Bool) (nc : ℕ) (hnc : 1 ≤ nc) (s1 s2 : Obj K)
+    (h1 : UnitSurf s1 pa0 pa1 U0 U1 Ma0 Ma1 rat nc) (h2 : UnitSurf s2 pb0 pb1 U0 U1 Mb0 Mb1 rat nc)
+    (hp : 2 ≤ pa0 ∧ 2 ≤ pa1 ∧ 2 ≤ pb0 ∧ 2 ≤ pb1)
+    (hl : Ma0.length = U0.length ∧ Ma1.length = U1.length ∧ Mb0.length = U0.length ∧ Mb1.length = U1.length)
+    (hm : (∀ x ∈ Ma0, x ≤ pa0 - 1) ∧ (∀ x ∈ Ma1, x ≤ pa1 - 1) ∧ (∀ x ∈ Mb0, x ≤ pb0 - 1) ∧ (∀ x ∈ Mb1, x ≤ pb1 - 1))
+    (hg0 : Splipy.Separated (2 * ((max pa0 pb0 - 1 : ℕ) : K) * tol) (clampedU 0 1 U0))
+    (hg1 : Splipy.Separated (2 * ((max pa1 pb1 - 1 : ℕ) : K) * tol) (clampedU 0 1 U1))
+    (hn : Nice tol (s1.basis 0) ∧ Nice tol (s1.basis 1) ∧ Nice tol (s2.basis 0) ∧ Nice tol (s2.basis 1)
+      ∧ Nice tol (unitBasis (max pa0 pb0) U0 (unionMult pa0 pb0 Ma0 Mb0))) (unwrap : Bool) :
+    ∃ vol A B : Obj K,
+      Obj.edgeSurfaces tol [s1, s2] = .ok vol
+      ∧ vol.sectionSel [none, none, some 0] unwrap = .ok (.obj "Surface" A)
+      ∧ vol.sectionSel [none, none, some (-1)] unwrap = .ok (.obj "Surface" B)
+      ∧ ∀ us vs : List K, us ≠ [] → vs ≠ [] →
+          (∀ u ∈ us, (unitBasis (max pa0 pb0) U0 (unionMult pa0 pb0 Ma0 Mb0)).Admissible tol u) →
+          (∀ v ∈ vs, (unitBasis (max pa1 pb1) U1 (unionMult pa1 pb1 Ma1 Mb1)).Admissible tol v) →
+          ((∀ u ∈ us, (unitBasis pa0 U0 Ma0).Admissible tol u) → (∀ v ∈ vs, (unitBasis pa1 U1 Ma1).Admissible tol v) →
+            ∃ res, s1.evaluate tol [us, vs] true = .ok res ∧ A.evaluate tol [us, vs] true = .ok res)
+          ∧ ((∀ u ∈ us, (unitBasis pb0 U0 Mb0).Admissible tol u) → (∀ v ∈ vs, (unitBasis pb1 U1 Mb1).Admissible tol v) →
+            ∃ res, s2.evaluate tol [us, vs] true = .ok res ∧ B.evaluate tol [us, vs] true = .ok res) := by
+  obtain ⟨vol, A, B, hcall, _, _, sA, sB, bA, bB, wA, wB, mA, mB, rA, rB⟩ :=
+    C15_edge_surfaces_2_partial tol htol pa0 pa1 pb0 pb1 U0 U1 Ma0 Ma1 Mb0 Mb1 rat nc s1 s2 h1 h2 hp hl hm hg0 hg1
+      hn unwrap
+  obtain ⟨hpa0, hpa1, hpb0, hpb1⟩ := hp
+  obtain ⟨hla0, hla1, hlb0, hlb1⟩ := hl
+  have lu0 : (unionMult pa0 pb0 Ma0 Mb0).length = U0.length := by
+    unfold unionMult; rw [List.length_zipWith, hla0, hlb0, min_self]
+  have lu1 : (unionMult pa1 pb1 Ma1 Mb1).length = U1.length := by
+    unfold unionMult; rw [List.length_zipWith, hla1, hlb1, min_self]
+  have st := fun p (hp : 2 ≤ p) (U : List K) (M : List ℕ) (hl : M.length = U.length) =>
+    (unitBasis_start_stop p hp U M hl).2
+  have bA0 : A.basis 0 = unitBasis (max pa0 pb0) U0 (unionMult pa0 pb0 Ma0 Mb0) := by
+    unfold Obj.basis; rw [bA]; rfl
+  have bA1 : A.basis 1 = unitBasis (max pa1 pb1) U1 (unionMult pa1 pb1 Ma1 Mb1) := by
+    unfold Obj.basis; rw [bA]; rfl
+  have bB0 : B.basis 0 = unitBasis (max pa0 pb0) U0 (unionMult pa0 pb0 Ma0 Mb0) := by
+    unfold Obj.basis; rw [bB, bA]; rfl
+  have bB1 : B.basis 1 = unitBasis (max pa1 pb1) U1 (unionMult pa1 pb1 Ma1 Mb1) := by
+    unfold Obj.basis; rw [bB, bA]; rfl
+  have sU0 := st (max pa0 pb0) (le_trans hpa0 (le_max_left _ _)) U0 _ lu0
+  have sU1 := st (max pa1 pb1) (le_trans hpa1 (le_max_left _ _)) U1 _ lu1
+  refine ⟨vol, A, B, hcall, sA, sB, fun us vs hneu hnev huU hvU => ⟨fun hu hv => ?_, fun hu hv => ?_⟩⟩
+  · obtain ⟨res, r1, r2, _⟩ := evaluate_eq_surface h1.wf wA (by rw [h1.b0]; rfl) (by rw [h1.b1]; rfl)
+      (by rw [bA0]; rfl) (by rw [bA1]; rfl)
+      (by rw [bA0, h1.b0, sU0, st pa0 hpa0 U0 Ma0 hla0]) (by rw [bA1, h1.b1, sU1, st pa1 hpa1 U1 Ma1 hla1])
+      (rA.trans h1.rational.symm) (fun _ => by rw [h1.ncomp]; exact hnc) mA htol hneu hnev
+      (by rw [h1.b0]; exact hu) (by rw [bA0]; exact huU) (by rw [h1.b1]; exact hv) (by rw [bA1]; exact hvU)
+    exact ⟨res, r1, r2⟩
+  · obtain ⟨res, r1, r2, _⟩ := evaluate_eq_surface h2.wf wB (by rw [h2.b0]; rfl) (by rw [h2.b1]; rfl)
+      (by rw [bB0]; rfl) (by rw [bB1]; rfl)
+      (by rw [bB0, h2.b0, sU0, st pb0 hpb0 U0 Mb0 hlb0]) (by rw [bB1, h2.b1, sU1, st pb1 hpb1 U1 Mb1 hlb1])
+      (rB.trans h2.rational.symm) (fun _ => by rw [h2.ncomp]; exact hnc) mB htol hneu hnev
+      (by rw [h2.b0]; exact hu) (by rw [bB0]; exact huU) (by rw [h2.b1]; exact hv) (by rw [bB1]; exact hvU)
+    exact ⟨res, r1, r2⟩
 
 /-! ## 8g. Arity and the rational guard of the factories -/
 
